@@ -550,6 +550,8 @@ class PathEnumerator:
             return self._unrolled(st, p, fr)
         if isinstance(st, ast.For):
             it = ev.expr(st.iter, f)
+            if self.unroll_literal_loops and it[0] in ("tuple", "list") and not st.orelse and 0 < len(it[1]) <= 8 and not any(x[0] == "star" for x in it[1]):
+                return self._unrolled_terms(st, list(it[1]), p, fr)
             if self.unroll_literal_loops and it[0] == "var" and not st.orelse:
                 # a local list whose elements are fixed on this path (filled by appends of displays): the loop is the straight-line code
                 from .listflow import concrete_list
